@@ -68,6 +68,24 @@ Theorem C03_history_refines_reference :
 Proof. intros txs k Hk H. exact (history_refines txs k Hk (hist_wf'_wf txs k H)). Qed.
 Print Assumptions C03_history_refines_reference.
 
+(** The same against the PURE reference history (which never looks at a keeper), from any keeper
+    representing the reference's start world; in particular from genesis: every return value of
+    every call of every transaction equals the reference's, and the final keeper is the reference's
+    final world. *)
+Theorem C03_history_equals_reference_history :
+  forall txs k w, kwf k -> weq (world_of k) w -> ref_hist_wf w txs ->
+  snd (run_txs k txs) = snd (ref_txs w txs) /\
+  weq (world_of (fst (run_txs k txs))) (fst (ref_txs w txs)) /\ kwf (fst (run_txs k txs)).
+Proof. exact history_equals_reference. Qed.
+Print Assumptions C03_history_equals_reference_history.
+
+Theorem C03_history_from_genesis :
+  forall txs, ref_hist_wf empty_world txs ->
+  snd (run_txs empty_keeper txs) = snd (ref_txs empty_world txs) /\
+  weq (world_of (fst (run_txs empty_keeper txs))) (fst (ref_txs empty_world txs)).
+Proof. exact history_from_empty_world. Qed.
+Print Assumptions C03_history_from_genesis.
+
 (** Moving whole unibi keeps every balance whole (so the wei <-> unibi conversion at Commit is exact). *)
 Theorem C03_whole_unibi_preserved :
   forall k ops, Forall op_whole ops -> whole_unibi (fst (ref_tx (world_of k) ops)).
@@ -113,6 +131,7 @@ Print Assumptions C03_program_checker_sound.
 
 (** Non-vacuity: a concrete two-transaction history with a contract creation, nested frames, a
     reverted SSTORE/refund/log/SELFDESTRUCT frame meets all hypotheses. *)
-Theorem C03_hypotheses_nonvacuous : kwf empty_keeper /\ hist_wf' empty_keeper [ex_ops; ex_tx2].
-Proof. exact (conj kwf_empty ex_hist_nonvacuous). Qed.
+Theorem C03_hypotheses_nonvacuous :
+  kwf empty_keeper /\ hist_wf' empty_keeper [ex_ops; ex_tx2] /\ ref_hist_wf empty_world [ex_ops; ex_tx2].
+Proof. exact (conj kwf_empty (conj ex_hist_nonvacuous ex_ref_hist_nonvacuous)). Qed.
 Print Assumptions C03_hypotheses_nonvacuous.
